@@ -83,7 +83,7 @@ def ctor_written_members(prog, cls, regmap, scalar):
 def run(ctx, prog):
     ctx.rule('C10.P1', 'no evaluator (nor anything it calls) stores to a registered parameter, directly, through set_var/set_vec, or through a helper')
     ctx.rule('C10.P2', 'every non-registered member an evaluator reads is either written earlier in the same invocation on every path, or written by no evaluator at all and assigned during construction')
-    ctx.rule('C10.P3', 'no static local, no mutable global or static data member, no rand/time/input call is reachable from an evaluator')
+    ctx.rule('C10.P3', 'nothing a static local kept from an earlier call reaches a result, branch or store of an evaluator (a static overwritten before it is read is scratch space, not state); no mutable global or static data member is read, no rand/time/input call is reachable')
     ctx.rule('C10.P5', 'masa_master<double>() and masa_master<long double>() return two distinct global registries')
     ctx.explanation = ('P1-P3 imply that an evaluator\'s result is a function of the registered parameters\' current values and its arguments, and that it changes no '
                        'parameter; this holds for every call history because it is a property of the code on every path, not of a sampled sequence. '
@@ -103,7 +103,8 @@ def run(ctx, prog):
             W_all = {}
             for name, sig, f in evs:
                 E = terms.Evaluator(prog, dyn_class=cls, scalar=scalar, regmap=regmap)
-                E.run(f)
+                outs_ = E.run(f)
+                E.trace.paths = list(outs_) + [p_ for p_ in E.trace.exit_paths if p_ not in outs_]
                 results[(name, sig)] = (f, E.trace)
                 for pth, locs in E.trace.writes.items():
                     W_all.setdefault(pth, []).append((name, locs[0]))
@@ -143,8 +144,30 @@ def run(ctx, prog):
                        nontrivial=bool(tr.pre_reads))
                 # ---- P3
                 probs = []
-                for nm, loc in tr.mutable_statics:
-                    probs.append('static local `%s` at %s' % (nm, loc))
+                undecided = []
+                if tr.mutable_statics:
+                    # a static local is state only if what it kept from an earlier call can reach a result, a branch or a store of this one
+                    used = set()
+                    unk = False
+                    for o_ in tr.paths:
+                        ts_ = ([o_.ret] if o_.ret is not None else []) + list(o_.conds) + [v_ for v_ in o_.mem.values() if isinstance(v_, tuple)]
+                        from ..api import flat as flat_events
+                        for e_ in flat_events(o_.events):
+                            if e_[0] != 'delta':        # deltas describe how a loop updates its own local variables
+                                ts_ += [x_ for x_ in e_[1:] if isinstance(x_, tuple)]
+                        for e_ in o_.events:
+                            if e_[0] == 'loop' and e_[1][0] is not None:
+                                ts_.append(e_[1][0])
+                        for t_ in ts_:
+                            for x_ in terms.subterms(t_):
+                                if x_[0] == 'sym' and isinstance(x_[1], str) and x_[1].startswith('static:'):
+                                    used.add(x_[1].split(':')[-1])
+                        unk = unk or (o_.ret is not None and terms.has_unk(o_.ret))
+                    for nm, loc in tr.mutable_statics:
+                        if nm in used:
+                            probs.append('static local `%s` at %s: the value it kept from an earlier call reaches the result of this one' % (nm, loc))
+                        elif unk:
+                            undecided.append('static local `%s` at %s and a result the analysis does not resolve: not decided' % (nm, loc))
                 for q, (const, loc) in tr.globals_read.items():
                     if not const and not q.startswith(ALLOWED_GLOBALS):
                         probs.append('reads mutable global `%s` at %s' % (q, loc))
@@ -153,8 +176,8 @@ def run(ctx, prog):
                 for q, loc in tr.lib_calls + tr.unknown_calls:
                     if q.split('::')[-1].split('<')[0] in BANNED:
                         probs.append('calls %s at %s' % (q, loc))
-                ctx.ob('C10.P3', key, not probs, f.where, '; '.join(probs[:3]), sample='%s: no static/global state, %d callees inlined' % (key, len(tr.inlined)),
-                       nontrivial=False)
+                ctx.ob('C10.P3', key, (not probs) if (probs or not undecided) else None, f.where, '; '.join((probs or undecided)[:3]),
+                       sample='%s: no static/global state reaches the result, %d callees inlined' % (key, len(tr.inlined)), nontrivial=False)
                 if tr.too_many_paths:
                     raise AnalysisBroken('%s: path limit reached' % key)
     ctx.floor('evaluator_overrides_analysed', n_eval, 2 * 225)
